@@ -44,7 +44,7 @@ CLAIMED["C11"] = {
             "(pointer copy) only, at the cache, get_exports and get_file_module; (4) the only mutable borrow of any export map "
             "(GcCell<VariableMapping>) is in MScriptFile::add_export, which mutates through update_once only, which fails on an existing name; "
             "(5) Import::compile queues a compilation only under CompilationLock::can_compile and then marks it; (6) Export::add is called only "
-            "from ModuleType::from_node, under the `export` flag tests, and ModuleType::get_property reads exported_members only. Does not decide "
+            "from ModuleType::from_node, under the `export` flag tests, and ModuleType::get_property reads exported_members only; (7) export_name registers the variable's own cell (the value handed to register_export derives from Ctx::load_local by identity) and variable cells are created only at declaration sites, so what the module writes later is what every importer reads. Does not decide "
             "that compile-time and run-time path strings denote the same file, nor import order (run-time history).",
     "technique": "static analysis: literal agreement, guarded-by / dominators on MIR CFG, type-resolved who-may-mutate, value-origin slicing",
     "design_ref": "DESIGN.md §5 C11",
@@ -84,8 +84,10 @@ CLAIMED["C04"] = {
             "output (quote wrap + ordered replace chain), the reader split_string_v2 to its (state x character-class) transition table, and "
             "read(write(arg)) == [arg] is decided by finite composition over all class singletons, pairs and the empty string (a singleton check "
             "from the in-argument state is an induction step for all strings). Also: opcode ids are single bytes (<128) and emitted ids differ from the "
-            "record markers (NUL, 'e'); the in-memory path hands (id, arguments) over verbatim; the loader tokenises with split_string_v2(_, true). "
-            "Does not decide NUL inside literals (outside the alphabet) nor that the two paths execute identical instruction streams beyond the codec.",
+            "record markers (NUL, 'e'); the in-memory path hands (id, arguments) over verbatim; the loader tokenises with split_string_v2(_, true); the output file is opened fresh (truncate / create_new); and `execute` registers the "
+            "entry file under the path it was given, separators normalised and nothing else (Program::new: the key handed to MScriptFile::open and the "
+            "file table derives from the parameter through conversions and one `\\\\`->`/` replace only), which is the path part of the labels the compiler "
+            "embedded. Does not decide NUL inside literals (outside the alphabet) nor that the two paths execute identical instruction streams beyond the codec.",
     "technique": "static analysis: abstract interpretation of rustc MIR (symbolic string writer, finite-state reader table) + finite composition; constant agreement",
     "design_ref": "DESIGN.md §5 C04",
 }
@@ -163,7 +165,8 @@ CLAIMED["C14"] = {
             "declared parameter as the declared kind, and returns only kinds inhabiting the declared return type (e.g. T? -> T or nil). (b) no "
             "lossy `as` conversion (narrowing, sign-changing, float->int saturation / NaN->0) of a program value in the Str*/Generic*/Float*/Byte* "
             "arms (R-CAST, arms separated by dominators of the variant switch). (c) one unit for string positions: every char-counting operation "
-            "on a program string is listed against the byte-based built-ins (one known finding: s[i]). Range / overflow failures of these "
+            "on a program string is listed against the byte-based built-ins (one known finding: s[i]); a marker around number text is removed at most once "
+            "(no repeating str::trim_*_matches in the code reachable from the built-ins). Range / overflow failures of these "
             "built-ins being errors rather than panics is decided by C17 (a).",
     "technique": "static analysis: three sibling tables extracted by abstract interpretation of rustc MIR and compared",
     "design_ref": "DESIGN.md §5 C14",
@@ -218,8 +221,8 @@ CLAIMED["C17"] = {
             "std calls panicking on an index (Vec::remove/insert/.., String::insert_str/.., str::split_at ..); a site is discharged by a dominating "
             "range comparison, an is_char_boundary test, the zero-divisor rejection (evaluated abstractly) or unreachability for type-checked "
             "programs; every remaining site is a violation (five known: integer overflow in + - * / %, which the repository's own test requires "
-            "to panic). unwrap/expect/unreachable! sites rest on typing invariants and are counted, not judged; allocation failure is out of scope.",
-    "technique": "static analysis: dominator / no-call-after-failure / must-pass-through rules on the MIR control-flow graphs of the interpreter loop, with field-sensitive origin slicing for the assert position",
+            "to panic); the same for conflicting RefCell / GcCell borrows of the interpreter's cells (call stack, variable cells and tables, lists, maps): no conflicting borrow while a guard may be alive unless the code tested the two cells to be different objects (Gc::ptr_eq) or one of them sits in a field that only ever holds a freshly allocated cell; and a function's frame stays on the stack while its callees run (no handler, no call-out after the pop). unwrap/expect/unreachable! sites rest on typing invariants and are counted, not judged; allocation failure is out of scope.",
+    "technique": "static analysis: dominator / no-call-after-failure / must-pass-through rules on the MIR control-flow graphs of the interpreter loop, field-sensitive origin slicing for the assert position, panic-site inventory with taint, guard typestate (borrow discipline) against call-graph closures",
     "design_ref": "DESIGN.md §5 C17",
 }
 
@@ -231,7 +234,7 @@ CLAIMED["C16"] = {
             "as_rule(), == comparisons, Option tests, boolean flags, aliases through clone / Node::new_with_user_data, the Pratt-parser "
             "primary/prefix/infix/postfix partition read from the Op::infix(Rule::X) constants) and decides ~100 obligations: O1 a match on as_rule() "
             "whose fall-through can only panic has an arm for every rule the grammar can produce there; O2 an unwrapped next()/last() cannot be None; "
-            "O3 an unwrapped single() has exactly one child; O4 assert_eq!(node.as_rule(), Rule::X) holds for every node reaching it. Two further exact rules: break/continue resolve only to a loop of the same function (the scope scan stops at a function scope), text-to-number conversions of literals are propagated, never unwrapped, and no recursive walker of the syntax tree calls back into its own recursion cycle twice on the same child on one path (2^depth compile time). Not decided: panics resting on typing/scoping invariants (counted), stack depth, termination.",
+            "O3 an unwrapped single() has exactly one child; O4 assert_eq!(node.as_rule(), Rule::X) holds for every node reaching it. Two further exact rules: break/continue resolve only to a loop of the same function (the scope scan stops at a function scope), text-to-number conversions of literals are propagated, never unwrapped, and no recursive walker of the syntax tree calls back into its own recursion cycle twice on the same child on one path (2^depth compile time); and borrow discipline on the scope stack -- no function that can take a mutable borrow of RefCell<Vec<Scope>> (call-graph closure of borrow_mut) is called while a Ref guard into it may be alive (flow-sensitive typestate of guard-owning locals over MIR: born at borrowing calls, dead when moved out, dropped, or on the None edge of an Option test), i.e. no `RefCell already borrowed` panic on a valid program. Not decided: panics resting on typing/scoping invariants (counted), stack depth, termination.",
     "technique": "static analysis: typestate / abstract interpretation of rustc MIR against automata built from the pest grammar",
     "design_ref": "DESIGN.md §5 C16, §4.8",
 }
@@ -299,7 +302,7 @@ NOT_APPLICABLE = {
 }
 
 # no hook commits exist; the only commits made to /repo are unguarded "fix:" repairs of genuine defects (see known_findings.json)
-FIX_COMMITS = ["e2ae2a9", "cb2d1e0", "e7575e5", "7bc2f7d", "0af4d83", "e4a4c00", "58e025f", "686179e", "7296d9a", "fa4b68b", "379557f", "4b30646", "0420930", "3aba53e", "2f2a1a1", "40a185d", "926b1f7", "1bc1139", "80aa30b", "cb4346c", "34ccc50", "c46bbfb", "52e39f3", "113558c", "2f9df7c", "3049d27", "8c4d891", "b57e9f6", "06f5ab2", "b6686d7", "5bdb4bc"]
+FIX_COMMITS = ["e2ae2a9", "cb2d1e0", "e7575e5", "7bc2f7d", "0af4d83", "e4a4c00", "58e025f", "686179e", "7296d9a", "fa4b68b", "379557f", "4b30646", "0420930", "3aba53e", "2f2a1a1", "40a185d", "926b1f7", "1bc1139", "80aa30b", "cb4346c", "34ccc50", "c46bbfb", "52e39f3", "113558c", "2f9df7c", "3049d27", "8c4d891", "b57e9f6", "06f5ab2", "b6686d7", "5bdb4bc", "21f2ccc", "f629b30", "fbc7074"]
 
 PENDING = "check not built yet in this round (framework under construction); planned per DESIGN.md §5/§8"
 
